@@ -35,8 +35,10 @@ def run(res, tier, seed, replay):
     # ---- cascades of learnt clauses derived from one another, solved on a 256 KiB stack: recursion over the chain shows as a crash
     if not replay:
         try:
-            dom, dh = ss.run_streams([("domino", 6000 if tier == "quick" else 20000, "sync", "debug", 2 if tier == "quick" else 4)], seed + 53,
-                                     render=True, extra_args=["--stack-kb", "256"])
+            # a chain of n learnt clauses costs time quadratic in n (6000: ~9 s, 20000: ~90 s and 4 GB in a debug build), so the
+            # per-case watchdog is raised for this stream: a slow case is not a hang
+            dom, dh = ss.run_streams([("domino", 5000 if tier == "quick" else 8000, "sync", "debug", 2 if tier == "quick" else 4)], seed + 53,
+                                     render=True, extra_args=["--stack-kb", "256", "--case-timeout", "900"])
             recs += dom
             hangs += dh
         except vlib.HarnessCrash as e:
